@@ -246,6 +246,27 @@ def check_grammar_symbol_sorts(ctx, rep, funcs, rule=RULE + '.cfg'):
             other_name = 'Terminal' if want == VAR else 'Variable'
             established = any((at[0] == 'isinstance' and at[3] is True and at[1] == txt and cls_name in str(at[2])) for at in atoms) \
                 or (la == {VAR, TER} and any((at[0] == 'isinstance' and at[3] is False and at[1] == txt and other_name in str(at[2])) for at in atoms))
+            if not established and isinstance(a, ast.Name) and nid is not None:
+                # flow-sensitive: the binding of the name that reaches this test (the typer joins all bindings of a name)
+                cfg0 = fx.cfg
+                binds = [st0 for st0 in walk_no_nested(f.node) if isinstance(st0, (ast.Assign, ast.AnnAssign)) and any(isinstance(t0, ast.Name) and t0.id == a.id for t0 in (st0.targets if isinstance(st0, ast.Assign) else [st0.target]))]
+                doms = [st0 for st0 in binds if cfg0.dominates(cfg0.n_of(st0), nid) and cfg0.n_of(st0) != nid]
+                if doms:
+                    inner = doms[0]
+                    for st0 in doms[1:]:
+                        if cfg0.dominates(cfg0.n_of(inner), cfg0.n_of(st0)):
+                            inner = st0
+                    others = [st0 for st0 in binds if st0 is not inner and cfg0.n_of(st0) in cfg0.reachable(cfg0.n_of(inner)) and nid in cfg0.reachable(cfg0.n_of(st0))
+                              and not cfg0.dominates(cfg0.n_of(st0), cfg0.n_of(inner))]
+                    loop_targets = [l0 for l0 in walk_no_nested(f.node) if isinstance(l0, ast.For) and any(isinstance(x0, ast.Name) and x0.id == a.id for x0 in ast.walk(l0.target))]
+                    if not others and not loop_targets and inner.value is not None:
+                        try:
+                            tv = env.type_of(inner.value)
+                        except Exception:
+                            tv = None
+                        cv = {m[1] for m in members(tv) if m[0] == 'cls'}
+                        if cv == {want} and len(members(tv)) == 1:
+                            established = True
             n += 1
             if established:
                 rep.holds(rule, f, s, 'the class of {} is established before the membership test'.format(txt))
